@@ -42,7 +42,7 @@ class C06Run(E2Run):
     default_monitors = ["c06"]
 
     def profile(self) -> Dict:
-        return {"topologies": ["lan", "routed", "routed2", "firewall"], "max_hosts_per_subnet": 2, "tight_links": 0.0, "random_acl_rules": (0, 2), "permit_all_rule": 1.0, "users": 0.5, "initial_files": 0.6, "avoid": ["listen_on_ports", "redeclare_system_software"]}
+        return {"topologies": ["lan", "routed", "routed2", "firewall", "wireless"], "max_hosts_per_subnet": 2, "tight_links": 0.0, "random_acl_rules": (0, 2), "permit_all_rule": 1.0, "users": 0.5, "initial_files": 0.6, "avoid": ["listen_on_ports", "redeclare_system_software", "tight_links"]}
 
     # -- scenario: attacker and victim software ---------------------------------------------------------------------
     def tweak_scenario(self):
@@ -130,6 +130,14 @@ class C06Run(E2Run):
         for l in self.inv["links"]:
             adj.setdefault(l["a"], []).append((l["a_port"], l["b"], l["b_port"]))
             adj.setdefault(l["b"], []).append((l["b_port"], l["a"], l["a_port"]))
+        # wireless routers reach each other over the air (access point = port 1 on both): a hop without a link object
+        air = sorted(n for n, r_ in self.inv["routers"].items() if r_.get("wireless"))
+        self.air_hops = set()
+        for x in air:
+            for y in air:
+                if x != y:
+                    adj.setdefault(x, []).append((1, y, 1))
+                    self.air_hops.add((x, y))
         paths: List[List] = []
 
         def dfs(n, seen, hops):
@@ -405,7 +413,8 @@ class C06Run(E2Run):
             side = r.choice(["in", "out"])
             return k, {"node": n, "port": hops[i][3] if side == "in" else hops[i + 1][1]}
         if k == "link":
-            h = r.choice(hops)
+            wired = [h for h in hops if (h[0], h[2]) not in self.air_hops]
+            h = r.choice(wired)
             return k, {"a": h[0], "a_port": h[1], "b": h[2], "b_port": h[3]}
         if k == "power":
             return k, {"node": r.choice([n for _, n in mids] + [self.b, self.b])}
